@@ -24,6 +24,23 @@ CLAIMS = {
         note="cbmc 6.11 + goto-cc + shim/immintrin.h for the AVX units; exactly-sized heap buffers; malloc never fails; table builders not run",
         technique="CBMC bounded model checking (SAT) of the real C code incl. AVX units through an intrinsics shim, shapes enumerated, data symbolic; native ASan replay",
         ref="DESIGN.md 4/C08"),
+    "C09": dict(
+        text="Bounded symbolic model checking of the real rotate / (X^p-1) / automorphism kernels (int64 and double, in place and out of "
+             "place in the same query) and of the vector/big wrappers against the signed-permutation specification: p fully symbolic over "
+             "int64 for N<=8, every residue mod 2N with representatives (incl. negative, far, near INT64_MIN) for N in {16,32} (to 256 thorough), "
+             "data symbolic. For N>=16 this is all residues, not all int64 p.",
+        note="cbmc 6.11; rnx (X^p-1) on doubles uses an injective probe vector instead of symbolic data (IEEE subtraction behind index selection is "
+             "not decided by SAT here); automorphism only for odd p",
+        technique="CBMC bounded model checking (SAT), symbolic p with per-loop unwinding bounds and unwinding assertions; residues enumerated for larger N; native replay",
+        ref="DESIGN.md 4/C09"),
+    "C13": dict(
+        text="Bounded symbolic model checking of every supported aliasing pattern of the integer entry points (res==a, res==b, res==a==b for "
+             "add/sub incl. big variants; res==a for copy/negate/rotate/automorphism/normalize/big normalize) against the same limb-wise "
+             "specification that pins the out-of-place call, for limb counts 0..3(4) in all orderings, both dispatch flags, all data symbolic.",
+        note="cbmc 6.11; CBMC's ISO-C memcpy-overlap assertion for dst==src self copies is ignored (values are asserted instead); "
+             "floating-point products / inverse DFT aliasing are decided by the FFT/NTT families where listed in evidence",
+        technique="CBMC bounded model checking (SAT) of the real C code with aliased exactly-sized buffers; native ASan replay",
+        ref="DESIGN.md 4/C13"),
 }
 
 NOT_YET = "check not built yet in this session (work in progress; see DESIGN.md section 4 for the plan)"
